@@ -289,3 +289,37 @@ def capture_factory(start_server_kwargs: dict, config):
     if "factory" not in captured:
         raise RuntimeError("start_server did not reach create_server")
     return captured
+
+
+def effect_probe(make_chain, peers, requests, upload=None, handler_spec=None, settle=0.5, gaps=None):
+    """Drive real GeminiServerProtocol connections (one per request) that share ONE middleware chain, one spy
+    request handler and one upload handler, and report for every connection what the client was told and what
+    was actually carried out: [(peer, request, status, handler_entries, upload_entries)].
+
+    make_chain: callable() -> middleware chain (built inside the probe's loop);  peers: list of peername tuples
+    (cycled over the requests);  upload: an upload handler object, default a SpyUpload that answers 20."""
+    from nauyaca.server.protocol import GeminiServerProtocol
+
+    loop = new_loop()
+    out = []
+    try:
+        log = []
+        chain = make_chain()
+        h = SpyHandler(handler_spec or {"mode": "sync", "outcome": "value", "status": 20, "meta": "text/gemini", "body": "ok\n"}, log, loop)
+        up = upload or SpyUpload({"outcome": "value", "status": 20, "meta": "text/gemini", "body": "stored\n"}, log, loop)
+        for i, req in enumerate(requests):
+            peer = peers[i % len(peers)]
+            n_h, n_u = len(h.calls), len(getattr(up, "calls", []))
+            sim = ServerSim(lambda: GeminiServerProtocol(h, chain, up), peername=peer, loop=loop, log=log)
+            sim.start()
+            sim.feed(req)
+            # (bounded: a rate limiter's clean-up task keeps the loop busy forever, and its clock must not run away)
+            loop.run_until(loop.time() + settle)
+            if gaps and gaps[i % len(gaps)]:
+                loop.sleep_until(loop.time() + gaps[i % len(gaps)])
+            stream = bytes(sim.transport.written)
+            status = int(stream[:2]) if stream[:2].isdigit() else None
+            out.append((peer, req, status, len(h.calls) - n_h, len(getattr(up, "calls", [])) - n_u, bool(sim.transport.closing)))
+        return out
+    finally:
+        close_loop(loop)
